@@ -1,5 +1,5 @@
 (** C03 - Dependencies: never start early; failure/cancel propagates to all dependents. *)
-From HQ Require Import Base.Prelude Cluster.Types Cluster.Core Cluster.Reactor Cluster.Worker Cluster.Server Cluster.Sys Cluster.Monitors Cluster.ProofsJob Cluster.ProofsCore Cluster.ProofsMore Cluster.BijFinal Cluster.RejHyp Cluster.InvAll Cluster.NoPanicU0 Cluster.NoPanicU1 Cluster.NoPanicU20 Cluster.NoFresh.
+From HQ Require Import Base.Prelude Cluster.Types Cluster.Core Cluster.Reactor Cluster.Worker Cluster.Server Cluster.Sys Cluster.Monitors Cluster.ProofsJob Cluster.ProofsCore Cluster.ProofsMore Cluster.BijFinal Cluster.RejHyp Cluster.InvAll Cluster.NoPanicU0 Cluster.NoPanicU1 Cluster.NoPanicU20 Cluster.NoFresh Cluster.DepOrderBase Cluster.DepOrderStep Cluster.DepOrderJournal Cluster.DepOrderAll Cluster.ProofsOnce.
 From Coq Require Import ZArith.
 Local Open Scope N_scope.
 
@@ -47,9 +47,40 @@ Theorem C03_placed_task_has_no_pending_dependency_static : forall ops reserve ma
   forall d, In d (t_deps t) -> find_task (c_tasks (s_core s)) d = None.
 Proof. exact placed_task_has_no_pending_dependency_ops. Qed.
 
+(** Restart safety of the event order.  In the event stream of EVERY history, whenever an event
+    kills a task t (TaskFailed, TasksCanceled, TasksAborted), every task x that the core ever held
+    with a dependency on t - in any state of the history, before or after - is named by a terminal
+    event up to and including that event: a server restarted from ANY PREFIX of the journal never
+    finds a live task with a dead dependency.  (TasksAborted of the transitive dependents is
+    written BEFORE TaskFailed; a cancel names every active task of the job in one event.) *)
+Theorem C03_history_dep_closed : forall ops reserve maxfill,
+  Forall op_wf ops -> ops_ok (init_sys reserve maxfill) ops = true ->
+  forall s outs, run (init_sys reserve maxfill) ops = Ok (s, outs) ->
+  forall pre e post t, outs = pre ++ OEv e :: post -> In t (kill_ids (OEv e)) ->
+  forall ops1 ops2 s1 outs1 x tx, ops = ops1 ++ ops2 -> run (init_sys reserve maxfill) ops1 = Ok (s1, outs1) ->
+    find_task (c_tasks (s_core s1)) x = Some tx -> In t (t_deps tx) ->
+    In x (terminal_ids (pre ++ [OEv e])).
+Proof. exact history_dep_closed_ops. Qed.
+(** ... as the executable journal monitor (events + one item per accepted submit with its raw
+    dependencies, as the driver builds them): it accepts every history. *)
+Theorem C03_journal_dep_closed : forall ops reserve maxfill,
+  Forall op_wf ops -> ops_ok (init_sys reserve maxfill) ops = true ->
+  forall s items, run_items (init_sys reserve maxfill) ops = Ok (s, items) -> journal_dep_closed [] [] items = true.
+Proof. exact journal_dep_closed_run_ops. Qed.
+(** One step from a state with the invariants. *)
+Theorem C03_step_dep_closed : forall s o s' outs pre e post t x tx,
+  InvBundle.INV s -> step s o = Ok (s', outs) ->
+  outs = pre ++ OEv e :: post -> In t (kill_ids (OEv e)) ->
+  find_task (c_tasks (s_core s)) x = Some tx -> In t (t_deps tx) ->
+  In x (terminal_ids (pre ++ [OEv e])).
+Proof. exact step_dep_closed. Qed.
+
 Print Assumptions C03_dependency_invariant.
 Print Assumptions C03_placed_task_has_no_pending_dependency.
 Print Assumptions C03_ready_task_has_no_pending_dependency.
 Print Assumptions C03_take_one_highest.
 Print Assumptions C03_dependency_invariant_static.
 Print Assumptions C03_placed_task_has_no_pending_dependency_static.
+Print Assumptions C03_history_dep_closed.
+Print Assumptions C03_journal_dep_closed.
+Print Assumptions C03_step_dep_closed.
